@@ -10,6 +10,13 @@
 * receive framing: _recv_version / _recv_pkthdr / _recv_packet consume nothing unless the whole unit is buffered, and
   then exactly that unit, reading nothing behind it; _recv_data drains every ready unit in order; data_received
   appends; lemma: drain(s, a ++ b) == drain(drain(s, a), b)  =>  any segmentation gives the same payload sequence
+* schedules: a handler that is still running parks the pump (_recv_packet), its completion (_finish_recv_packet,
+  is_async) re-arms the header step and drains what was buffered meanwhile
+* compression: compressed iff an algorithm other than "none" is in force for THAT direction (delayed zlib@openssh.com:
+  only after authentication) - send_packet, _recv_packet, send_newkeys (ghost algorithm tags), _process_newkeys
+* "under the negotiated algorithms": data lemma over the registered cipher x MAC x compression tables against a table
+  written from the RFCs (specs/c02_suites.py), initial framing (__init__), get_encryption / Encryption.new (etm
+  dispatch), ChachaCipher.__init__ / chacha20 (key halves, block counter), GCMCipher.__init__, UInt32 / UInt64
 """
 import z3
 from pyvc.contracts import *
@@ -40,6 +47,34 @@ ASSUMPTIONS = list(c11.ASSUMPTIONS) + [
     'segmentation lemma (base and step case are solver-checked in extra_checks)',
     'Encryption.encrypt_packet in send_packet is the abstract (bytes, bytes) contract; the four implementations are '
     'under contract here; MAC.sign / Cipher.encrypt inside them are uninterpreted (mac.py is under contract in C01)',
+    'schedules: ghost_rs of a connection whose pump is parked (a message handler returned an awaitable) is the abstract '
+    'state the machine RESUMES in; the parked step `lambda: False` is an instance of (i) (never ready, changes nothing). '
+    '_finish_recv_packet(is_async=True) is proved to re-enter the verified pump exactly once, with the header step armed, '
+    'on exactly the bytes buffered meanwhile; that asyncio invokes the done-callback registered by _recv_packet exactly '
+    'once when the task completes is the asyncio contract (trusted); message handlers / tasks do not write '
+    '_recv_handler or _inpbuf (writers: __init__, _recv_version, _recv_pkthdr, _recv_packet, _finish_recv_packet, '
+    'data_received; _cleanup empties the buffer when the connection ends, which ends the claim)',
+    'compression: get_compressor / get_decompressor / get_compression_params in send_newkeys are the assumed contract '
+    '"None exactly for `none`, else a codec of that algorithm; delayed flag = cmp_delayed(alg)"; the registered table '
+    'is compared with RFC 4253 6.2 / OpenSSH PROTOCOL natively (data lemma C02.data#suite-parameters: none -> no codec, '
+    'zlib -> immediate, zlib@openssh.com -> delayed); compress / decompress themselves are opaque (fresh result)',
+    'data lemma C02.data#suite-parameters is NOT an SMT proof: the real get_encryption_params / encryption_needs_mac / '
+    'get_encryption / compression getters are EVALUATED under /venv/bin/python for every registered cipher x MAC '
+    '(331 rows on the pinned tree) and compared with specs/c02_suites.py, written from RFC 4253 / 4344 / 4345 / 5647 / '
+    '6668 and OpenSSH PROTOCOL, PROTOCOL.chacha20poly1305 (the @ssh.com rows and hmac-sha2-*-96 from vendor / draft '
+    'documents: lower confidence); it is exhaustive because the tables are finite',
+    'class invariant `no send cipher => _send_enchdrlen == 5 and _send_blocksize == 8` (required by send_packet and '
+    'send_newkeys): writers SSHConnection.__init__ (region contract over the framing assignments of the constructor: '
+    '`initial-framing...`) and send_newkeys (`class-inv:no-cipher-means-initial-framing`); no other writer of the three '
+    'fields exists (grep)',
+    'ChachaCipher.__init__ requires a 64-byte key, GCMCipher.__init__ a 12-byte IV: both are compute_key results '
+    '(`rfc4253-7.2-expansion-truncated`: len == the size asked for) of the sizes the data lemma fixes for those suites; '
+    'the chain send_newkeys -> get_encryption -> Encryption.new -> cipher constructor is argued through the argument-'
+    'order contracts on get_encryption / *.new, not composed mechanically',
+    'cryptography library contract (trusted): ChaCha20(key, nonce16) reads nonce16 as 64-bit little-endian block '
+    'counter followed by the 64-bit nonce; Cipher(alg, mode=None).encryptor().update(d) is the keystream XOR',
+    'shared contracts registered under C02 with their home-property assumptions: C11 _process_newkeys, C15 UInt32 / '
+    'UInt64, C01 ChachaCipher.encrypt_and_sign / GCMCipher.encrypt_and_sign; C11 send_packet clause queued-xor-emitted',
 ]
 
 # ------------------------------------------------------------------ send_packet: wire format
@@ -100,11 +135,59 @@ def seq_rule(c):
     return z3.And(conj)
 
 
+def compression_in_effect(c, codec, delayed):
+    """RFC 4253 6.2 / OpenSSH PROTOCOL (zlib@openssh.com): a direction's payloads are compressed iff a compression
+    algorithm other than "none" is in force for that direction (then, and only then, a (de)compressor object is
+    installed: send_newkeys / _process_newkeys + the data lemma on the compression table) and - for the delayed variant
+    zlib@openssh.com - authentication has completed"""
+    return z3.And(z3.Not(c.is_none(c.oldv(codec))), z3.Or(c.old('_auth_complete'), z3.Not(c.old(delayed))))
+
+
+def payload_compressed_iff_in_effect(c):
+    """the payload field on the wire is compress(payload) iff compression is in effect for the sending direction at
+    this moment, else the payload itself (`rfc4253-binary-packet` ties the emitted payload field to the compressor's
+    output for exactly this payload when there is one, to the payload otherwise)"""
+    if not c11.own_sends(c):
+        return z3.BoolVal(True)
+    comp = [x for x in c.calls() if x['key'].endswith('.compress')]
+    eff = compression_in_effect(c, '_compressor', '_compress_after_auth')
+    return z3.And(z3.BoolVal(len(comp) <= 1), eff if comp else z3.Not(eff))
+
+
+def cleartext_framing(c, old=True):
+    """class invariant of the sending side, RFC 4253 6: until the first NEWKEYS there is no cipher and no MAC: the
+    alignment unit is 8 and the length field counts (it is neither sent apart from an encrypted body nor AAD).
+    Writers of _send_encryption / _send_enchdrlen / _send_blocksize: __init__ (`initial_framing` below establishes it),
+    send_newkeys (installs a cipher object: `rfc4253-7.2-letters-and-directions` says the field is not None
+    afterwards, and nothing ever resets it to None)."""
+    f, fv = (c.old, c.oldv) if old else (c.new, c.newv)
+    return z3.Implies(c.is_none(fv('_send_encryption')),
+                      z3.And(f('_send_enchdrlen') == 5, f('_send_blocksize') == 8))
+
+
+def cleartext_packet_shape(c):
+    """RFC 4253 6 for the packets that leave before the first NEWKEYS (version exchange done, no keys yet): the whole
+    of packet_length || padding_length || payload || padding is a multiple of 8 and at least 16 bytes long"""
+    sends = c11.own_sends(c)
+    if not sends:
+        return z3.BoolVal(True)
+    n = z3.Length(sends[0]['args'][0].z)
+    return z3.Implies(c.is_none(c.oldv('_send_encryption')), z3.And(n % 8 == 0, n >= 16))
+
+
 send_packet = c11._mk_send_packet(
     'C02',
     ensures=[('rfc4253-binary-packet', c11.wire_format), ('mac-over-pre-increment-seq', mac_over_current_seq),
-             ('seq-rule', seq_rule)],
+             ('seq-rule', seq_rule),
+             ('payload-compressed-iff-compression-is-in-effect-for-the-sending-direction',
+              payload_compressed_iff_in_effect),
+             ('cleartext-packets-are-a-multiple-of-8-counting-the-length-field', cleartext_packet_shape),
+             # "every payload sent is received exactly once", sending half: the clause is C11's (same function, same
+             # call graph), registered here too so that `./check C02` alone notices a packet that is queued AND sent
+             ('queued-xor-emitted', c11.never_both)],
     always=[])
+_send_packet_requires = send_packet.requires
+send_packet.requires = lambda c: z3.And(_send_packet_requires(c), cleartext_framing(c))
 send_packet.stubs['self.send_packet'] = c11._recursive_stub
 send_packet.stubs['self._send_encryption.encrypt_packet'] = encrypt_packet_stub
 send_packet.stubs['self._send'] = wire_stub
@@ -358,6 +441,11 @@ recv_pkthdr = Spec(
             z3.And(c.is_none(c.oldv('_recv_encryption')),
                    z3.Length(c.old('_inpbuf')) >= c.old('_recv_blocksize')),
             c.new('_pktlen') == unbe(z3.Extract(z3.Extract(c.old('_inpbuf'), 0, c.old('_recv_blocksize')), 0, 4)))),
+        # establishes the one fact about the staged block that _recv_packet requires (only without a cipher: with one
+        # the staged block is whatever decrypt_header made of it and _recv_packet hands it on unread)
+        ('plaintext-header-block-is-staged-whole', lambda c: z3.Implies(
+            z3.And(c.result, c.is_none(c.oldv('_recv_encryption'))),
+            z3.Length(c.new('_packet')) == c.old('_recv_blocksize'))),
     ],
     returns='bool')
 
@@ -396,9 +484,80 @@ def packet_reads_only_its_bytes(c):
     return z3.And(conj) if conj else z3.BoolVal(True)
 
 
+def payload_decompressed_iff_in_effect(c):
+    """receiving half of the compression rule: the payload handed to the dispatcher is decompress(payload field) iff
+    compression is in effect for the RECEIVING direction at this moment (a (de)compressor is installed for it and, for
+    delayed zlib@openssh.com, authentication has completed), else the payload field itself
+    (`packet-step-reads-only-its-own-bytes` ties what is dispatched to the decompressor's output / the field)"""
+    comp = [x for x in c.calls() if x['key'].endswith('.decompress')]
+    eff = compression_in_effect(c, '_decompressor', '_decompress_after_auth')
+    conj = [z3.BoolVal(len(comp) <= 1)]
+    if comp:
+        conj.append(eff)
+    elif c.events('process_packet'):
+        conj.append(z3.Not(eff))
+    return z3.And(conj)
+
+
+def is_parked(v):
+    """v (a value of _recv_handler) is a step that reports "not ready" whatever is buffered and touches nothing:
+    the argument-less constant function False"""
+    import ast
+    if not (isinstance(v, VTag) and v.tag == 'lambda' and isinstance(v.payload, ast.Lambda)):
+        return False
+    a, body = v.payload.args, v.payload.body
+    return not (a.args or a.posonlyargs or a.kwonlyargs or a.vararg or a.kwarg) and \
+        isinstance(body, ast.Constant) and body.value is False
+
+
+def partial_stub(cx):
+    """functools.partial(f, *args, **kw): a callable that remembers f, args, kw"""
+    return [Out(ret=VTag('partial', payload=(tuple(cx.args), dict(cx.kwargs))))]
+
+
+partial_stub.modifies = ()
+
+
+def pending_handler_parks_the_pump(c):
+    """schedules: a message handler may hand back an awaitable (the handler is still RUNNING when _recv_packet
+    returns).  Until it completes no further packet is decoded - the step reports "not ready", the installed step
+    is one that consumes nothing - and its completion re-enters the receive machine through
+    _finish_recv_packet(pkttype, seq, is_async=True) (under contract below), exactly once; the packet is not also
+    finished synchronously (its sequence number would be counted twice).  A handler that is done when it returns is
+    finished synchronously and leaves the pump armed with whatever _finish_recv_packet installs (the header step)."""
+    pp = [x for x in c.calls() if x['key'].endswith('process_packet') and x['exc'] is None]
+    if not pp or not isinstance(pp[0]['ret'], VOpaque):
+        return z3.BoolVal(True)
+    r = pp[0]['ret']
+    pending = z3.Function('isawaitable_' + r.sortname, r.z.sort(), BoolS)(r.z)
+    h = c.newv('_recv_handler')
+    cbs = c.events('done_callback')
+    fins = c.calls('_finish_recv_packet')
+    ok_cb = False
+    if len(cbs) == 1 and len(cbs[0][1]) == 1 and isinstance(cbs[0][1][0], VTag) and cbs[0][1][0].tag == 'partial':
+        pa, pk = cbs[0][1][0].payload
+        tasks = c.calls('create_task')
+        ok_cb = len(pa) == 3 and isinstance(pa[0], VTag) and pa[0].tag == 'method:SSHConnection._finish_recv_packet' \
+            and set(pk) == {'is_async'} and concrete_bool(c.truthy(pk['is_async'])) is True \
+            and len(tasks) == 1 and tasks[0]['args'][0] is r
+    conj = [z3.Implies(pending, z3.BoolVal(c.raised is None and is_parked(h) and ok_cb and not fins)),
+            z3.Implies(z3.Not(pending), z3.BoolVal(not is_parked(h) and not cbs))]
+    if c.raised is None:
+        conj.append(z3.Implies(pending, z3.Not(c.result)))
+    if ok_cb:
+        pa = cbs[0][1][0].payload[0]
+        # the completion is reported for THIS packet: its type (first payload byte) and the sequence number it had
+        conj.append(z3.Implies(pending, z3.And(c.ex.as_int(pa[1]) == pp[0]['args'][0].z,
+                                               c.ex.as_int(pa[2]) == c.old('_recv_seq'))))
+    return z3.And(conj)
+
+
+RP_FIELDS = dict(CONN_FIELDS, ghost_rs='opaque:RecvState', ghost_out='seq[bytes]', ghost_failed='bool')
+
 recv_packet_framing = Spec(
     'C02', 'connection', 'SSHConnection._recv_packet', self_class='SSHConnection',
-    classes=dict(CONN_CLASSES, **PACKET_CLASSES), inline=dict(PACKET_INLINE), truthy=PACKET_TRUTHY,
+    classes=dict(CONN_CLASSES, SSHConnection=RP_FIELDS, **PACKET_CLASSES), inline=dict(PACKET_INLINE),
+    truthy=PACKET_TRUTHY,
     stubs={
         'self._recv_encryption.decrypt_packet': ret('opt[bytes]', 'decrypted'),
         'self._decompressor.decompress': ret('opt[bytes]', 'decompressed'),
@@ -406,14 +565,19 @@ recv_packet_framing = Spec(
         '*.process_packet': may_raise(ret('any', 'handler_result', event='process_packet'),
                                       'PacketDecodeError', 'ProtocolError'),
         'self.create_task': ret('obj:Task', 'task'),
-        'task.add_done_callback': noop(),
-        'functools.partial': lambda cx: VTag('partial'),
-        'self.send_packet': noop('send_packet'),
-        'self._finish_recv_packet': noop('finish'),
+        'task.add_done_callback': noop('done_callback'),
+        'functools.partial': partial_stub,
+        # send_packet(MSG_UNIMPLEMENTED, ...): its signals clause as verified above / under C11
+        'self.send_packet': may_raise(noop('send_packet'), 'ProtocolError', 'CompressionError'),
+        # the synchronous completion: C02's own verified contract (below), ProtocolError on sequence rollover included
+        'self._finish_recv_packet': contract_stub(lambda: finish_recv_packet),
     },
     requires=lambda c: z3.And(c.old('_pktlen') >= 0, c.old('_recv_macsize') >= 0, c.old('_recv_blocksize') >= 8,
                               c.old('_recv_seq') >= 0, c.old('_recv_seq') < 2 ** 32,
-                              z3.Length(c.old('_packet')) == c.old('_recv_blocksize'),
+                              # established by _recv_pkthdr (`plaintext-header-block-is-staged-whole`); with a cipher
+                              # the staged block is only handed on to decrypt_packet
+                              z3.Implies(c.is_none(c.oldv('_recv_encryption')),
+                                         z3.Length(c.old('_packet')) == c.old('_recv_blocksize')),
                               need(c) >= c.old('_recv_macsize')),
     always=[
         ('incomplete-packet-consumes-nothing', lambda c: z3.Implies(
@@ -426,6 +590,9 @@ recv_packet_framing = Spec(
             c.new('_inpbuf') == z3.Extract(c.old('_inpbuf'), need(c), z3.Length(c.old('_inpbuf')) - need(c)))),
         ('payload-delivered-at-most-once', lambda c: z3.BoolVal(len(c.events('process_packet')) <= 1)),
         ('packet-step-reads-only-its-own-bytes', packet_reads_only_its_bytes),
+        ('payload-decompressed-iff-compression-is-in-effect-for-the-receiving-direction',
+         payload_decompressed_iff_in_effect),
+        ('pending-handler-parks-the-pump-and-its-completion-re-enters-it', pending_handler_parks_the_pump),
     ],
     raises={'MACError': True, 'CompressionError': True, 'ProtocolError': True, 'PacketDecodeError': True},
     returns='bool')
@@ -563,6 +730,107 @@ data_received = Spec(
     raises={})
 
 
+# ------------------------------------------------------------------ schedules: completion of a pending handler
+# While a handler task is pending the pump is parked (`pending-handler-parks-the-pump...` on _recv_packet): chunks that
+# arrive are appended by data_received and the parked step consumes nothing, so they wait in _inpbuf.  When the task
+# completes, asyncio calls _finish_recv_packet(pkttype, seq, task, is_async=True).  In the abstract machine the
+# connection's ghost state ghost_rs is the state the machine resumes in (the successor of the asynchronously handled
+# packet); the completion has to make the concrete pump continue from there: re-arm the header step and run the pump on
+# what is buffered - otherwise packets that were coalesced behind the asynchronously handled one are delivered only when
+# (and if) further bytes arrive: the outcome would depend on how the byte stream was split.
+def fin_async(c):
+    if 'is_async' in c.args or 'is_async' in c.old_state.env:
+        return c.arg('is_async')
+    return z3.BoolVal(False)
+
+
+def repump_stub(cx):
+    """self._recv_data() inside _finish_recv_packet = the VERIFIED pump contract (`recv_data` above: the state after
+    the call is drain(state, buffer)); it may be entered only with the header step armed (the parked step would make
+    the pump a no-op); the concrete receive fields the real pump writes besides the buffer are havocked"""
+    cx.require('pump-re-entered-with-the-header-step-armed',
+               cx.ex.veq(cx.st, cx.selff('_recv_handler'), VTag('method:SSHConnection._recv_pkthdr')))
+    snap = (cx.selff('_inpbuf'),)
+    outs = contract_stub(lambda: recv_data)(cx)
+    decl = cx.ex.spec.classes[cx.st.rec(cx.ex.self_ref).cls]
+    for o in outs:
+        for f in FIN_PUMP_WRITES:
+            if f not in o.sets:
+                o.sets[f] = cx.fresh(decl[f], 'after_pump' + f)
+        o.event = ('repump', snap)
+    return outs
+
+
+repump_stub.modifies = ()
+repump_stub.spec_getter = lambda: recv_data
+FIN_PUMP_WRITES = ('_recv_handler', '_recv_seq', '_packet', '_pktlen', '_recv_blocksize', '_recv_macsize', '_auth_final',
+                   '_send_seq')
+FIN_FIELDS = dict(CONN_FIELDS, ghost_rs='opaque:RecvState', ghost_out='seq[bytes]', ghost_failed='bool')
+
+
+def fin_rollover(c):
+    return z3.And(z3.Not(c.is_none(c.oldv('_transport'))), c.old('_recv_seq') == 0xffffffff,
+                  c.is_none(c.oldv('_recv_encryption')))
+
+
+def completion_drains_what_is_buffered(c):
+    """after the completion of a pending handler everything that was buffered meanwhile has been run through the
+    receive machine: state, rest and delivered payloads are drain(resume state, buffered bytes) - the same result as if
+    the bytes had arrived after the completion"""
+    closed = z3.BoolVal(len(c.events('closed')) > 0)
+    return z3.Implies(z3.And(fin_async(c), z3.Not(closed)),
+                      drained(c, c.old('ghost_rs'), c.old('_inpbuf')))
+
+
+def completion_repumps_once(c):
+    """the same sentence at the call: a completion that finds bytes buffered runs the pump exactly once, on exactly those
+    bytes (a synchronous completion never does: the pump that called _recv_packet is still running)"""
+    ev = c.events('repump')
+    closed = len(c.events('closed')) > 0
+    if closed:
+        return z3.BoolVal(not ev)
+    return z3.And(z3.Implies(z3.Not(fin_async(c)), z3.BoolVal(not ev)),
+                  z3.Implies(z3.And(fin_async(c), z3.Length(c.old('_inpbuf')) > 0),
+                             z3.And(z3.BoolVal(len(ev) == 1), *[e[1][0].z == c.old('_inpbuf') for e in ev])))
+
+
+finish_recv_packet = Spec(
+    'C02', 'connection', 'SSHConnection._finish_recv_packet', self_class='SSHConnection',
+    params=dict(pkttype='int', seq='int', _task='none', is_async='bool'),
+    classes=dict(CONN_CLASSES, SSHConnection=FIN_FIELDS),
+    stubs={'self._recv_data': repump_stub, 'self._send_disconnect': noop('closed'), 'self._force_close': noop('closed')},
+    # misc.ProtocolError.__init__(reason, lang=DEFAULT_LANG) -> DisconnectError(DISC_PROTOCOL_ERROR = 2, reason, lang)
+    exc_attrs={'ProtocolError': lambda args, kw: {'code': VInt(2), 'reason': args[0], 'lang': VStr('en-US')}},
+    modifies=['_auth_final', '_recv_seq', '_recv_handler', '_inpbuf', 'ghost_rs', 'ghost_out', 'ghost_failed', '_packet',
+              '_pktlen', '_recv_blocksize', '_recv_macsize', '_send_seq'],
+    requires=lambda c: z3.And(c.arg('seq') >= 0, c.arg('seq') < 2 ** 32, c.old('_recv_seq') >= 0,
+                              c.old('_recv_seq') < 2 ** 32,
+                              # (the abstract machine makes no claim about a run that has already failed)
+                              z3.Implies(fin_async(c), z3.Not(c.old('ghost_failed')))),
+    lemmas=lambda c: drain_def(c.old('ghost_rs'), c.old('_inpbuf')) + [step_contract(c.old('ghost_rs'),
+                                                                                      c.old('_inpbuf'))],
+    ensures=[
+        ('completion-of-a-pending-handler-drains-what-was-buffered-meanwhile', completion_drains_what_is_buffered),
+        ('completion-re-enters-the-pump-exactly-once-on-the-buffered-bytes', completion_repumps_once),
+        # log-free clauses (what _recv_packet relies on for the synchronous call)
+        ('synchronous-completion-arms-the-header-step', lambda c: z3.Or(fin_async(c), c.eq(
+            c.newv('_recv_handler'), VTag('method:SSHConnection._recv_pkthdr')))),
+        # RFC 4253 6.4: the receive counter is the number of packets received, mod 2^32; OpenSSH PROTOCOL 1.10
+        # (strict kex): it restarts at 0 after NEWKEYS
+        ('receive-counter-counts-this-packet-once', lambda c: z3.Or(
+            fin_async(c), c.is_none(c.oldv('_transport')),
+            c.new('_recv_seq') == z3.If(z3.And(c.arg('pkttype') == 21, c.old('_strict_kex')), 0,
+                                        (c.arg('seq') + 1) % 2 ** 32))),
+    ],
+    always=[('synchronous-completion-leaves-buffer-and-staging-alone', lambda c: z3.Or(fin_async(c), z3.And(
+        [c.new('_inpbuf') == c.old('_inpbuf'), c.new('ghost_rs') == c.old('ghost_rs'),
+         c.new('ghost_out') == c.old('ghost_out'), c.new('ghost_failed') == c.old('ghost_failed')] +
+        [c.eq(c.newv(f), c.oldv(f)) for f in ('_packet', '_pktlen', '_recv_blocksize', '_recv_macsize',
+                                              '_send_seq')])))],
+    # as a task done-callback nothing could catch the error: only the synchronous call may raise it
+    raises={'ProtocolError': lambda c: z3.And(z3.Not(fin_async(c)), fin_rollover(c))})
+
+
 def segmentation_lemma():
     """drain(s, a ++ b) == drain(drain_state(s, a), drain_rest(s, a) ++ b) with outputs concatenated.
     Induction on the number of ready steps in a (well-founded: need >= 1 shortens the buffer).  Base (no step ready
@@ -672,7 +940,8 @@ def extra_checks(tier, seed):
     ok = bool(sizes) and sizes <= {1, 8, 16}
     return {'lemmas': [{'name': 'C02.crypto.cipher._cipher_alg_list#block-sizes-in-{1,8,16}',
                         'verdict': 'proved' if ok else 'refuted', 'detail': sorted(sizes),
-                        'backend': 'data (AST literal)', 'replayed': True}] + segmentation_lemma()}
+                        'backend': 'data (AST literal)', 'replayed': True}, suite_parameters_lemma()] +
+            segmentation_lemma()}
 
 
 # ------------------------------------------------------------------ send_newkeys: RFC 4253 7.2 letters / directions
@@ -783,6 +1052,61 @@ def newkeys_recv_framing(c):
                   c.new('_next_recv_macsize') == enc_params(e, m, z3.IntVal(4)))
 
 
+# ---- compression (RFC 4253 6.2; OpenSSH PROTOCOL: zlib@openssh.com = zlib that starts after authentication)
+NONE_ALG = bytes_const(b'none')
+cmp_delayed = z3.Function('cmp_delayed', BytesS, BoolS)     # the algorithm's compression starts only after authentication
+CODEC_GHOST = {'ghost_alg': 'bytes'}
+
+
+def _codec_stub(cls):
+    """compression.get_compressor(alg) / get_decompressor(alg): None exactly for "none", otherwise a fresh codec object
+    of that algorithm (ghost tag).  That the real table behaves so is the data lemma `suite-parameters` (native,
+    exhaustive over the registered compression algorithms)."""
+    def stub(cx):
+        alg = cx.args[0]
+        o = cx.fresh('obj:' + cls, cls.lower())
+        cx.st.set_field(o, 'ghost_alg', alg)
+        return [Out(ret=VOpt(alg.z == NONE_ALG, o))]
+    stub.modifies = ()
+    return stub
+
+
+def compression_params_stub(cx):
+    """compression.get_compression_params(alg) -> delayed flag of the algorithm (table: same data lemma)"""
+    return [Out(ret=VBool(cmp_delayed(cx.args[0].z)))]
+
+
+compression_params_stub.modifies = ()
+
+
+def codec_for(c, v, alg):
+    """the field value v is the codec of algorithm `alg`: None iff alg is "none", else an object tagged with alg"""
+    st = c.new_state
+    if v is VNone:
+        return alg == NONE_ALG
+    if isinstance(v, VRef):
+        return z3.And(alg != NONE_ALG, st.rec(v).fields['ghost_alg'].z == alg)
+    if isinstance(v, VOpt) and isinstance(v.val, VRef):
+        return z3.And(v.isnone == (alg == NONE_ALG),
+                      z3.Implies(z3.Not(v.isnone), st.rec(v.val).fields['ghost_alg'].z == alg))
+    return z3.BoolVal(False)
+
+
+def newkeys_compression(c):
+    """compression is negotiated per direction (RFC 4253 7.1: compression_algorithms_client_to_server /
+    _server_to_client): what this side SENDS is compressed with the algorithm of its sending direction (c->s on a
+    client, s->c on a server), what it will RECEIVE after the peer's NEWKEYS with that of the other direction; the
+    delayed-start flag travels with the algorithm"""
+    if c.raised is not None:
+        return z3.BoolVal(True)
+    isc = c.old('_is_client')
+    cs, sc = c.old('_cmp_alg_cs'), c.old('_cmp_alg_sc')
+    snd, rcv = z3.If(isc, cs, sc), z3.If(isc, sc, cs)
+    return z3.And(codec_for(c, c.newv('_compressor'), snd), c.new('_compress_after_auth') == cmp_delayed(snd),
+                  codec_for(c, c.newv('_next_decompressor'), rcv),
+                  c.new('_next_decompress_after_auth') == cmp_delayed(rcv))
+
+
 NK_SNAPSHOT = ('_send_encryption', '_send_blocksize', '_send_enchdrlen', '_compressor', '_kex_complete')
 
 
@@ -814,14 +1138,15 @@ def newkeys_order(c):
 send_newkeys = Spec(
     'C02', 'connection', 'SSHConnection.send_newkeys', self_class='SSHConnection',
     params=dict(k='bytes', h='bytes'),
-    classes=dict(CONN_CLASSES, SSHConnection=NK_FIELDS, Encryption=ENC_GHOST, Future={}),
+    classes=dict(CONN_CLASSES, SSHConnection=NK_FIELDS, Encryption=ENC_GHOST, Future={}, Compressor=CODEC_GHOST,
+                 Decompressor=CODEC_GHOST),
     stubs=dict(ROLE_STUBS, **{
         'get_encryption_params': enc_params_stub,
-        'get_compression_params': ret('bool', 'cmp_after_auth'),
+        'get_compression_params': compression_params_stub,
         'self._kex.compute_key': compute_key_stub,
         'get_encryption': get_encryption_stub,
-        'get_compressor': ret('opt[obj:Compressor]', 'compressor'),
-        'get_decompressor': ret('opt[obj:Decompressor]', 'decompressor'),
+        'get_compressor': _codec_stub('Compressor'),
+        'get_decompressor': _codec_stub('Decompressor'),
         'self.send_packet': newkeys_send_stub,
         'self.set_extra_info': noop(),
         'self._waiter.cancelled': ret('bool', 'cancelled'),
@@ -830,10 +1155,12 @@ send_newkeys = Spec(
         'self.send_service_request': noop('service_request'),
         'self._send_deferred_packets': noop('flush_deferred'),
     }),
-    requires=lambda c: z3.And(z3.Not(c.is_none(c.oldv('_kex'))), z3.Length(c.arg('h')) > 0),
+    requires=lambda c: z3.And(z3.Not(c.is_none(c.oldv('_kex'))), z3.Length(c.arg('h')) > 0, cleartext_framing(c)),
     ensures=[('rfc4253-7.2-letters-and-directions', newkeys_keys),
              ('send-framing-follows-sending-direction', newkeys_framing),
              ('staged-receive-framing-follows-receiving-direction', newkeys_recv_framing),
+             ('compression-follows-the-direction(send-installed,receive-staged,delayed-flag-of-that-algorithm)',
+              newkeys_compression),
              ('kex-complete-after-newkeys', lambda c: z3.Or(
                  c.new('_kex_complete'),
                  # the early return for a connect() waiting only for the key exchange
@@ -844,7 +1171,315 @@ send_newkeys = Spec(
                  z3.BoolVal(len(c.events('waiter_set')) == 0), z3.BoolVal(
                      len(c.events('flush_deferred')) == 1 and
                      [e[0] for e in c.events() if e[0] in ('send_packet', 'flush_deferred')][-1] == 'flush_deferred')))],
-    always=[('newkeys-first', newkeys_order)],
+    always=[('newkeys-first', newkeys_order),
+            # writer side of the class invariant `cleartext_framing` (send_packet requires it)
+            ('class-inv:no-cipher-means-initial-framing', lambda c: cleartext_framing(c, old=False))],
     raises={'UnicodeDecodeError': True, 'AssertionError': lambda c: z3.BoolVal(False)})
 send_newkeys.model_timeout_ms = 2500    # per-path cross-check witness search budget (sampling only, not a proof step)
 send_newkeys.confirm_attempts = 24      # 200 paths: cap the counter-model searches when a change refutes many of them
+
+
+# ====================================================================== "under the negotiated algorithms"
+# send_newkeys above says: keys, IVs, framing and compression follow enc_param(alg, mac, i) / etm_param / cmp_delayed of
+# the negotiated algorithm of the right direction, and get_encryption(alg, key, iv, mac_alg, mac_key, etm) builds the
+# cipher.  What those parameters ARE for each suite, and that the object built is the one the documents describe, is
+# this section:
+#   data lemma  C02.data#suite-parameters   every registered cipher x MAC (and compression algorithm) evaluated with the
+#               real get_encryption_params / encryption_needs_mac / get_encryption / get_compressor ... and compared with
+#               the table in specs/c02_suites.py, written from RFC 4253 / 4344 / 4345 / 5647 / 6668 and OpenSSH PROTOCOL*
+#               (a DATA lemma: exhaustive over the finite registered tables, evaluated natively - not an SMT proof)
+#   initial framing (SSHConnection.__init__), get_encryption, the three `new` constructors (etm dispatch),
+#   ChachaCipher.__init__ (key halves), chacha20() (block counter), GCMCipher.__init__ (nonce), _process_newkeys (all
+#   receive-side parameters switch together), packet.UInt32 / UInt64 (the wire encoders the clauses above talk about)
+def suite_parameters_lemma():
+    import json
+    import os
+    import subprocess
+    from pyvc import extract
+    name = 'C02.data#suite-parameters(cipher x MAC x compression tables == RFC 4253/4344/4345/5647/6668, OpenSSH PROTOCOL)'
+    script = os.path.join(os.path.dirname(os.path.dirname(os.path.abspath(__file__))), 'specs', 'c02_suites.py')
+    try:
+        p = subprocess.run(['/venv/bin/python', script], capture_output=True, text=True,
+                           env=dict(os.environ, PYTHONPATH=extract.REPO), timeout=180, cwd='/tmp')
+        out = json.loads(p.stdout)
+    except Exception as e:      # noqa      harness trouble is never a verdict
+        return {'name': name, 'verdict': 'unknown', 'reason': repr(e), 'backend': 'data (native evaluation)'}
+    ok = out['rows'] >= 1 and not out['bad']
+    return {'name': name, 'verdict': 'proved' if ok else 'refuted', 'detail': {'rows': out['rows'], 'bad': out['bad'][:8]},
+            'backend': 'data (native evaluation, exhaustive over the registered tables)', 'replayed': True}
+
+
+# ---------------------------------------------------------------- initial framing (RFC 4253 6, 6.4, 4.2)
+INIT_FIELDS = ('_inpbuf', '_packet', '_send_seq', '_send_encryption', '_send_enchdrlen', '_send_blocksize', '_compressor',
+               '_compress_after_auth', '_recv_handler', '_recv_seq', '_recv_encryption', '_recv_blocksize',
+               '_recv_macsize', '_decompressor', '_decompress_after_auth', '_next_recv_encryption')
+
+
+def init_region(fn):
+    """the statements of __init__ that write the transport-layer framing state (everything else in the constructor
+    is configuration)"""
+    import ast
+    out = []
+    for st_ in fn.body:
+        tgts = st_.targets if isinstance(st_, ast.Assign) else [st_.target] if isinstance(st_, (ast.AnnAssign,
+                                                                                            ast.AugAssign)) else []
+        if any(isinstance(t, ast.Attribute) and isinstance(t.value, ast.Name) and t.value.id == 'self' and
+               t.attr in INIT_FIELDS for t in tgts):
+            out.append(st_)
+    return out
+
+
+def initial_state_is_rfc(c):
+    """a connection starts with no cipher, no MAC, no compression in either direction ("none"), both sequence numbers
+    at zero (RFC 4253 6.4), alignment unit 8 with the length field counted (RFC 4253 6), nothing buffered, and the
+    version-line step armed (RFC 4253 4.2)"""
+    none = lambda f: c.is_none(c.newv(f))       # noqa: E731
+    return z3.And(none('_send_encryption'), none('_recv_encryption'), none('_next_recv_encryption'),
+                  none('_compressor'), none('_decompressor'),
+                  c.new('_send_seq') == 0, c.new('_recv_seq') == 0,
+                  c.new('_send_enchdrlen') == 5, c.new('_send_blocksize') == 8,
+                  c.new('_recv_blocksize') == 8, c.new('_recv_macsize') == 0,
+                  z3.Length(c.new('_inpbuf')) == 0, z3.Length(c.new('_packet')) == 0,
+                  c.eq(c.newv('_recv_handler'), VTag('method:SSHConnection._recv_version')),
+                  cleartext_framing(c, old=False))
+
+
+initial_framing = Spec(
+    'C02', 'connection', 'SSHConnection.__init__', self_class='SSHConnection',
+    params=dict(loop='any', options='any', acceptor='any', error_handler='any', wait='opt[str]', server='bool'),
+    classes=CONN_CLASSES, region=init_region,
+    ensures=[('initial-framing:no-cipher-no-mac-no-compression-seq-0-unit-8-length-counted', initial_state_is_rfc)],
+    raises={})
+initial_framing.no_replay = True        # a region of the constructor cannot be started natively
+
+
+# ---------------------------------------------------------------- encryption.py: get_encryption and the constructors
+def _ctor(cls, fields, event=None):
+    """constructor / factory stub: a new object of class `cls` whose (ghost) fields record the arguments in order"""
+    def stub(cx):
+        o = cx.fresh('obj:' + cls, cls.lower())
+        for f, v in zip(fields, cx.args):
+            cx.st.set_field(o, f, v)
+        return [Out(ret=o, event=(event or 'new:' + cls, tuple(cx.args)))]
+    stub.modifies = ()
+    return stub
+
+
+CIPHER_GHOST = {'ghost_name': 'str', 'ghost_key': 'bytes', 'ghost_iv': 'bytes'}
+NEW_PARAMS = dict(cls='any', cipher_name='str', key='bytes', iv='bytes', mac_alg='bytes', mac_key='bytes', etm='bool')
+NEW_CLASSES = {'BasicEncryption': {'_cipher': 'obj:BasicCipher', '_mac': 'obj:MAC'},
+               'ETMEncryption': {'_cipher': 'obj:BasicCipher', '_mac': 'obj:MAC'},
+               'GCMEncryption': {'_cipher': 'obj:GCMCipher'}, 'ChachaEncryption': {'_cipher': 'obj:ChachaCipher'},
+               'BasicCipher': CIPHER_GHOST, 'GCMCipher': CIPHER_GHOST, 'ChachaCipher': {'ghost_key': 'bytes'},
+               'MAC': {'ghost_alg': 'bytes', 'ghost_key': 'bytes'}}
+
+
+def _obj_fields(c, v):
+    return c.new_state.rec(v).fields if isinstance(v, VRef) else None
+
+
+def _cipher_is(c, enc, cls, name=True):
+    """enc._cipher is an object of class cls built from exactly (cipher_name, key, iv) resp. (key)"""
+    f = _obj_fields(c, enc)
+    if f is None or not isinstance(f.get('_cipher'), VRef) or c.new_state.rec(f['_cipher']).cls != cls:
+        return z3.BoolVal(False)
+    g = c.new_state.rec(f['_cipher']).fields
+    conj = [g['ghost_key'].z == c.arg('key')]
+    if name:
+        conj += [g['ghost_name'].z == c.arg('cipher_name'), g['ghost_iv'].z == c.arg('iv')]
+    return z3.And(conj)
+
+
+def basic_new_post(c):
+    """OpenSSH PROTOCOL 1.6: a *-etm@openssh.com MAC turns the suite into encrypt-then-MAC (ETMEncryption: length in
+    clear, MAC over the ciphertext, see `etm-encrypt-then-mac-...`); every other MAC is RFC 4253 MAC-then-encrypt.
+    Cipher and MAC are built from the derived key / IV / MAC key they were given, unpermuted."""
+    r = c.result_v
+    f = _obj_fields(c, r)
+    if f is None:
+        return z3.BoolVal(False)
+    cls = c.new_state.rec(r).cls
+    mac = f.get('_mac')
+    if not isinstance(mac, VRef):
+        return z3.BoolVal(False)
+    m = c.new_state.rec(mac).fields
+    return z3.And(z3.If(c.arg('etm'), z3.BoolVal(cls == 'ETMEncryption'), z3.BoolVal(cls == 'BasicEncryption')),
+                  _cipher_is(c, r, 'BasicCipher'), m['ghost_alg'].z == c.arg('mac_alg'),
+                  m['ghost_key'].z == c.arg('mac_key'))
+
+
+NEW_STUBS = {'BasicCipher': _ctor('BasicCipher', ('ghost_name', 'ghost_key', 'ghost_iv')),
+             'GCMCipher': _ctor('GCMCipher', ('ghost_name', 'ghost_key', 'ghost_iv')),
+             'ChachaCipher': _ctor('ChachaCipher', ('ghost_key',)),
+             'get_mac': _ctor('MAC', ('ghost_alg', 'ghost_key')),
+             'ETMEncryption': _ctor('ETMEncryption', ('_cipher', '_mac'))}
+
+basic_new = Spec(
+    'C02', 'encryption', 'BasicEncryption.new', params=NEW_PARAMS, classes=NEW_CLASSES,
+    stubs=dict(NEW_STUBS, cls=_ctor('BasicEncryption', ('_cipher', '_mac'))),
+    ensures=[('etm-mac-selects-encrypt-then-mac;cipher-and-mac-built-from-their-own-key-material', basic_new_post)],
+    raises={})
+gcm_new = Spec(
+    'C02', 'encryption', 'GCMEncryption.new', params=NEW_PARAMS, classes=NEW_CLASSES,
+    stubs=dict(NEW_STUBS, cls=_ctor('GCMEncryption', ('_cipher',))),
+    ensures=[('rfc5647-cipher-built-from-key-and-nonce', lambda c: z3.And(
+        z3.BoolVal(isinstance(c.result_v, VRef) and c.new_state.rec(c.result_v).cls == 'GCMEncryption'),
+        _cipher_is(c, c.result_v, 'GCMCipher')))],
+    raises={})
+chacha_new = Spec(
+    'C02', 'encryption', 'ChachaEncryption.new', params=NEW_PARAMS, classes=NEW_CLASSES,
+    stubs=dict(NEW_STUBS, cls=_ctor('ChachaEncryption', ('_cipher',))),
+    ensures=[('chacha20-poly1305-cipher-built-from-the-64-byte-key', lambda c: z3.And(
+        z3.BoolVal(isinstance(c.result_v, VRef) and c.new_state.rec(c.result_v).cls == 'ChachaEncryption'),
+        _cipher_is(c, c.result_v, 'ChachaCipher', name=False)))],
+    raises={})
+for _sp in (basic_new, gcm_new, chacha_new):
+    _sp.no_replay = True        # classmethods returning library-backed objects: nothing to compare natively
+
+
+def get_encryption_setup(ex, st):
+    """_enc_params: the registration table {enc_alg: (Encryption class, cipher name)} (its CONTENT is the data lemma)"""
+    st.env['_enc_params'] = ex.fresh(st, 'dict[bytes,tuple[any,str]]', 'enc_params')
+
+
+def get_encryption_post(c):
+    """the class registered for enc_alg builds the cipher, from the registered cipher name and exactly the key material
+    handed in: (key, iv, mac_alg, mac_key, etm) in the order of Encryption.new"""
+    calls = [x for x in c.calls() if x['key'].endswith('.new')]
+    if len(calls) != 1:
+        return z3.BoolVal(False)
+    a = calls[0]['args']
+    names = ('key', 'iv', 'mac_alg', 'mac_key')
+    if len(a) != 6:
+        return z3.BoolVal(False)
+    return z3.And([a[i + 1].z == c.arg(n) for i, n in enumerate(names)] +
+                  [c.truthy(a[5]) == c.arg('etm'), c.eq(c.result_v, calls[0]['ret'])])
+
+
+get_encryption_spec = Spec(
+    'C02', 'encryption', 'get_encryption',
+    params=dict(enc_alg='bytes', key='bytes', iv='bytes', mac_alg='bytes', mac_key='bytes', etm='bool'),
+    setup=get_encryption_setup, stubs={'encryption.new': ret('any', 'enc_obj')},
+    ensures=[('key-material-reaches-the-registered-class-unpermuted', get_encryption_post)],
+    raises={'KeyError': True})
+get_encryption_spec.no_replay = True
+
+
+# ---------------------------------------------------------------- crypto/chacha.py (OpenSSH PROTOCOL.chacha20poly1305)
+# "The chacha20-poly1305@openssh.com cipher requires 512 bits of key material as output from the SSH key exchange.
+#  This forms two 256 bit keys (K_1 and K_2) ... the first 256 bits constitute K_2 and the second 256 bits become K_1."
+# K_1 encrypts only the packet length, K_2 the payload (block counter 1) and generates the Poly1305 key (block counter
+# 0).  "The ChaCha20 block counter is ... LSB first", 64 bits; the nonce is the packet sequence number as uint64.
+chacha_init = Spec(
+    'C02', 'crypto.chacha', 'ChachaCipher.__init__', self_class='ChachaCipher', params=dict(key='bytes'),
+    classes={'ChachaCipher': {'_key': 'bytes', '_adkey': 'bytes'}},
+    # 64 bytes: `suite-parameters` (key size of the suite) + `rfc4253-7.2-expansion-truncated` (len == size asked for)
+    requires=lambda c: z3.Length(c.arg('key')) == 64,
+    ensures=[('K_2-main-key-is-the-first-256-bits;K_1-header-key-the-second', lambda c: z3.And(
+        c.new('_key') == z3.Extract(c.arg('key'), 0, 32), c.new('_adkey') == z3.Extract(c.arg('key'), 32, 32)))],
+    raises={})
+
+CHA_CLASSES = {'ChaAlg': {'ghost_key': 'bytes', 'ghost_nonce': 'bytes'}, 'ChaCipher': {'ghost_alg': 'obj:ChaAlg'},
+               'ChaCtx': {'ghost_alg': 'obj:ChaAlg'}}
+chacha_lib = z3.Function('lib_chacha20_xor', BytesS, BytesS, BytesS, BytesS)   # cryptography ChaCha20(key, nonce16).update
+
+
+def _cha_cipher(cx):
+    o = cx.fresh('obj:ChaCipher', 'cipher')
+    cx.st.set_field(o, 'ghost_alg', cx.args[0])
+    return [Out(ret=o)]
+
+
+def _cha_encryptor(cx):
+    o = cx.fresh('obj:ChaCtx', 'ctx')
+    cx.st.set_field(o, 'ghost_alg', cx.ex.get_field(cx.st, cx.recv, 'ghost_alg'))
+    return [Out(ret=o)]
+
+
+def _cha_update(cx):
+    alg = cx.ex.get_field(cx.st, cx.recv, 'ghost_alg')
+    g = cx.st.rec(alg).fields
+    return [Out(ret=VBytes(chacha_lib(g['ghost_key'].z, g['ghost_nonce'].z, cx.args[0].z)),
+                event=('chacha_update', (g['ghost_key'], g['ghost_nonce'], cx.args[0])))]
+
+
+for _f in (_cha_cipher, _cha_encryptor, _cha_update):
+    _f.modifies = ()
+
+
+def chacha20_post(c):
+    """library contract (cryptography): ChaCha20(key, nonce16) takes the 16-byte initial block words 12..15 = 64-bit
+    block counter, little-endian, followed by the 64-bit nonce.  PROTOCOL.chacha20poly1305: counter LSB first."""
+    ev = c.events('chacha_update')
+    if len(ev) != 1:
+        return z3.BoolVal(False)
+    k, n16, d = ev[0][1]
+    ctr_le64 = z3.If(c.arg('ctr') == 1, bytes_const((1).to_bytes(8, 'little')), bytes_const(bytes(8)))
+    return z3.And(k.z == c.arg('key'), d.z == c.arg('data'), n16.z == z3.Concat(ctr_le64, c.arg('nonce')),
+                  c.result == chacha_lib(c.arg('key'), z3.Concat(ctr_le64, c.arg('nonce')), c.arg('data')))
+
+
+chacha20_spec = Spec(
+    'C02', 'crypto.chacha', 'chacha20', params=dict(key='bytes', data='bytes', nonce='bytes', ctr='int'),
+    classes=CHA_CLASSES,
+    stubs={'ChaCha20': _ctor('ChaAlg', ('ghost_key', 'ghost_nonce')), 'Cipher': _cha_cipher,
+           'ChaCipher.encryptor': _cha_encryptor, 'ChaCtx.update': _cha_update},
+    requires=lambda c: z3.And(z3.Or(c.arg('ctr') == 0, c.arg('ctr') == 1), z3.Length(c.arg('nonce')) == 8),
+    ensures=[('block-counter-is-64-bit-little-endian-followed-by-the-nonce', chacha20_post)],
+    returns='bytes', raises={})
+chacha20_spec.no_replay = True          # the library objects are stubbed by class: nothing to patch natively
+
+
+# ---------------------------------------------------------------- crypto/cipher.py: GCMCipher.__init__ (RFC 5647 7.1)
+def gcm_init_setup(ex, st):
+    st.env['_cipher_algs'] = ex.fresh(st, 'dict[str,tuple[any,any,int]]', 'cipher_algs')
+
+
+gcm_init = Spec(
+    'C02', 'crypto.cipher', 'GCMCipher.__init__', self_class='GCMCipher',
+    params=dict(cipher_name='str', key='bytes', iv='bytes'), classes={'GCMCipher': {'_iv': 'bytes', '_key': 'bytes',
+                                                                                    '_cipher': 'any'}},
+    setup=gcm_init_setup,
+    # 12 bytes: `suite-parameters` (IV size of the two GCM suites) + `rfc4253-7.2-expansion-truncated`
+    requires=lambda c: z3.Length(c.arg('iv')) == 12,
+    ensures=[('initial-nonce-is-the-derived-IV(12 bytes: writer of the invariant _update_iv requires)',
+              lambda c: z3.And(c.new('_iv') == c.arg('iv'), z3.Length(c.new('_iv')) == 12,
+                               c.new('_key') == c.arg('key')))],
+    raises={'KeyError': True})
+gcm_init.no_replay = True
+
+
+# ---------------------------------------------------------------- contracts proved under their home property, registered
+# under C02 as well (same Spec object, property id C02): `./check C02` alone then notices a change there that breaks
+# THIS property.  Cross-check samples are kept small: every path is cross-checked under the home property.
+def _share(modname, attr, tag=None, limit=2):
+    import copy
+    import importlib
+    try:
+        sp = getattr(importlib.import_module('contracts.' + modname), attr, None)
+    except Exception:       # noqa      (import cycle while another property's sidecar is being loaded)
+        sp = None
+    if sp is None:
+        return None
+    cp = copy.copy(sp)
+    cp.prop = 'C02'
+    if tag is not None:
+        cp.tag = tag
+    cp.crosscheck_limit = limit
+    Spec.registry.append(cp)
+    return cp
+
+
+# C11: NEWKEYS received -> cipher, block size, MAC size, decompressor and its delayed flag ALL switch to the staged
+# values of the receiving direction (what send_newkeys staged, see above), and the stage is cleared
+shared_process_newkeys = _share('c11_kexinit', 'process_newkeys_c11')
+# C15: packet.UInt32 / UInt64 are fixed-width big-endian (RFC 4251 5) - the encoders behind the length field, the
+# chacha20-poly1305 nonce UInt64(seq) and the sequence number in the MAC input; the engine's built-in model of these
+# two functions is thereby compared with their source under this property too
+shared_uint32 = _share('c15', 'enc_uint32')
+shared_uint64 = _share('c15', 'enc_uint64')
+# C01: ChachaCipher.encrypt_and_sign - header under K_1 (_adkey) with block counter 0, payload under K_2 (_key) with
+# block counter 1, tag over both ciphertexts under K_2's per-packet Poly1305 key (connects `chacha_init` to the wire)
+shared_chacha_seal = _share('c01', 'chacha_encrypt_and_sign')
+# C01: GCMCipher.encrypt_and_sign - one AEAD seal under the current nonce, AAD = the length field, nonce advanced once
+shared_gcm_seal = _share('c01', 'gcm_encrypt_and_sign')
